@@ -1195,7 +1195,11 @@ fn handle_overflow<const UPPER: bool>(
                 || lhs.gt(&lhs_zero) && rhs.gt(&rhs_zero)
         }
         Operator::Plus => lhs.ge(&lhs_zero),
-        Operator::Minus => lhs.ge(rhs),
+        // A subtraction can only overflow in the positive direction if the
+        // subtrahend is negative. Note that we can not compare `lhs` and
+        // `rhs` with each other here, since they may have different types
+        // (e.g. a timestamp and a duration).
+        Operator::Minus => rhs.lt(&rhs_zero),
         _ => {
             unreachable!()
         }
